@@ -51,6 +51,19 @@ pub mod chrono {
         #[verifier::external_body]
         pub fn and_utc(&self) -> (r: DateTime<Utc>) ensures r.secs == self.secs, r.nanos == self.nanos { unimplemented!() }
     }
+    /// chrono::TimeDelta: a signed span of time; `num_seconds` / `num_milliseconds` return the number of WHOLE units,
+    /// i.e. they truncate towards zero (-0.5 s has 0 whole seconds)
+    pub struct TimeDelta { pub ns: Ghost<int> }
+    pub open spec fn trunc_div(a: int, d: int) -> int { if a >= 0 { a / d } else { -((-a) / d) } }
+    impl TimeDelta {
+        #[verifier::external_body]
+        pub fn num_seconds(&self) -> (r: i64)
+            ensures r == trunc_div(self.ns@, 1_000_000_000) { unimplemented!() }
+        #[verifier::external_body]
+        pub fn num_milliseconds(&self) -> (r: i64)
+            requires -9_000_000_000_000_000_000_000_000 < self.ns@ < 9_000_000_000_000_000_000_000_000,
+            ensures r == trunc_div(self.ns@, 1_000_000) { unimplemented!() }
+    }
     /// an instant (zone-independent) plus a zone used only for display
     pub struct DateTime<TZ: TimeZone> { pub secs: i64, pub nanos: u32, pub tz: TZ }
     impl<TZ: TimeZone> DateTime<TZ> {
@@ -76,10 +89,17 @@ pub mod chrono {
         pub fn timestamp_millis(&self) -> (r: i64)
             requires -9_000_000_000_000_000 < self.secs < 9_000_000_000_000_000,
             ensures r == self.secs * 1000 + (self.nanos / 1_000_000) as int { unimplemented!() }
+        /// chrono: "Subtracts another DateTime from the current date and time": the signed difference of the instants
+        #[verifier::external_body]
+        pub fn signed_duration_since<TZ2: TimeZone>(self, rhs: DateTime<TZ2>) -> (r: TimeDelta)
+            ensures r.ns@ == self.ns() - rhs.ns() { unimplemented!() }
         /// chrono: "Returns the number of nanoseconds since the last second boundary"
         #[verifier::external_body]
         pub fn timestamp_subsec_nanos(&self) -> (r: u32) ensures r == self.nanos { unimplemented!() }
     }
+}
+impl chrono::DateTime<chrono::Utc> {
+    pub const UNIX_EPOCH: chrono::DateTime<chrono::Utc> = chrono::DateTime { secs: 0, nanos: 0, tz: chrono::Utc {} };
 }
 pub assume_specification<T, E, U, F>[ Result::<T, E>::and_then ](r: Result<T, E>, op: F) -> (res: Result<U, E>)
     where F: FnOnce(T) -> Result<U, E> + core::marker::Destruct,
